@@ -53,6 +53,22 @@ type c47Chain struct {
 	submitErr     error
 	entryProgress bool
 	submitted     chan struct{}
+
+	// landOn: the accepted entry of another member is announced while this
+	// chain call of the member is in flight ("submit" | "status")
+	landOn string
+	landCh chan<- uint64
+}
+
+// land announces the competing entry from the chain's own routine (it stays
+// parked if the member never listens again, like a late chain event).
+func (c *c47Chain) land(call string) {
+	if c.landOn != call {
+		return
+	}
+	c.landOn = ""
+	h := c.bc.Height()
+	go func() { c.landCh <- h }()
 }
 
 func (c *c47Chain) GetConfig() *beaconchain.Config { return c.cfg }
@@ -61,6 +77,7 @@ func (c *c47Chain) SubmitRelayEntry(entry []byte) error {
 	c.mu.Lock()
 	c.submitBlocks = append(c.submitBlocks, c.bc.Height())
 	err := c.submitErr
+	c.land("submit")
 	c.mu.Unlock()
 	c.submitted <- struct{}{}
 	return err
@@ -69,7 +86,9 @@ func (c *c47Chain) SubmitRelayEntry(entry []byte) error {
 func (c *c47Chain) IsEntryInProgress() (bool, error) {
 	c.mu.Lock()
 	defer c.mu.Unlock()
-	return c.entryProgress, nil
+	answer := c.entryProgress
+	c.land("status")
+	return answer, nil
 }
 
 func (c *c47Chain) submits() []uint64 {
@@ -256,7 +275,7 @@ func TestVerif_C47_RelayEntrySubmitHistory(t *testing.T) {
 		// competing accepted entry: none, at a block before the member is due,
 		// or at/after the block of the member's own submission
 		var kinds []string
-		kinds = append(kinds, "none", "after", "after")
+		kinds = append(kinds, "none", "after", "after", "during-submit", "during-status")
 		if arrive < slot {
 			kinds = append(kinds, "before", "before", "before", "just-before")
 		}
@@ -271,6 +290,13 @@ func TestVerif_C47_RelayEntrySubmitHistory(t *testing.T) {
 			eventBlock = uint64(rapid.IntRange(int(due), int(timeoutBlock)-1).Draw(t, "eventBlock"))
 		}
 		outcome := rapid.SampledFrom([]string{"accepted", "accepted", "accepted", "rejected-not-in-progress", "rejected-in-progress"}).Draw(t, "ownSubmission")
+		if kind == "during-status" && outcome == "accepted" {
+			// the status is only asked after a failed submission
+			outcome = rapid.SampledFrom([]string{"rejected-not-in-progress", "rejected-in-progress"}).Draw(t, "ownSubmissionFailed")
+		}
+		if kind == "during-submit" || kind == "during-status" {
+			eventBlock = due
+		}
 
 		bc := verifkit.NewFakeBlockCounter(arrive)
 		counter := c47Counter{bc}
@@ -283,6 +309,11 @@ func TestVerif_C47_RelayEntrySubmitHistory(t *testing.T) {
 			ch.submitErr, ch.entryProgress = fmt.Errorf("c47: transaction failed"), true
 		}
 		submittedCh := make(chan uint64)
+		if kind == "during-submit" {
+			ch.landOn, ch.landCh = "submit", submittedCh
+		} else if kind == "during-status" {
+			ch.landOn, ch.landCh = "status", submittedCh
+		}
 		timeoutCh, _ := counter.BlockHeightWaiter(timeoutBlock)
 		s := &relayEntrySubmitter{logger: &testutils.MockLogger{}, chain: ch, blockCounter: counter, index: index}
 		done := make(chan error, 1)
@@ -314,9 +345,34 @@ func TestVerif_C47_RelayEntrySubmitHistory(t *testing.T) {
 			t.Fatalf("VERIF-INCONCLUSIVE: submitter did not register its waiter; %s", desc)
 		}
 		eventSent, ignoredEvent := false, false
+		during := kind == "during-submit" || kind == "during-status"
 		for !finished {
 			h := bc.Height()
-			if kind != "none" && !eventSent && h == eventBlock && (kind != "after" || submits > 0 || outcome != "accepted") {
+			if during && submits > 0 && !eventSent {
+				// the competing entry was announced while the member's own
+				// chain call was in flight: it leaves - or, if it ignores
+				// the announcement, takes a second copy of it as well
+				eventSent = true
+				select {
+				case result = <-done:
+					finished = true
+				case submittedCh <- h:
+					select {
+					case result = <-done:
+						finished = true
+					case submittedCh <- h:
+						ignoredEvent = true
+					case <-time.After(c47Wait):
+						fmt.Println("VERIF-INCONCLUSIVE: submitter neither left nor kept listening after the announcement")
+						t.Fatalf("VERIF-INCONCLUSIVE: submitter stuck; %s", desc)
+					}
+				case <-time.After(c47Wait):
+					fmt.Println("VERIF-INCONCLUSIVE: submitter neither left nor listened after its own submission")
+					t.Fatalf("VERIF-INCONCLUSIVE: submitter stuck; %s", desc)
+				}
+				continue
+			}
+			if kind != "none" && !during && !eventSent && h == eventBlock && (kind != "after" || submits > 0 || outcome != "accepted") {
 				select {
 				case submittedCh <- h:
 				case result = <-done:
@@ -394,7 +450,7 @@ func TestVerif_C47_RelayEntrySubmitHistory(t *testing.T) {
 				if result == nil {
 					t.Fatalf("own submission failed while the entry is still in progress: expected the error; %s", full)
 				}
-			case kind == "after":
+			case kind == "after" || during:
 				if result != nil {
 					t.Fatalf("member left with error %v after the submission event; %s", result, full)
 				}
@@ -404,7 +460,7 @@ func TestVerif_C47_RelayEntrySubmitHistory(t *testing.T) {
 				}
 			}
 		}
-		nt := kind == "just-before" || residue == 0
+		nt := kind == "just-before" || residue == 0 || during
 		st.Case(nt, full, "competing:"+kind, "own:"+outcome, fmt.Sprintf("arrived-late:%v", arrive > slot), fmt.Sprintf("residue-zero:%v", residue == 0), "history:driven")
 	})
 }
